@@ -17,6 +17,13 @@ R01.6 lane data pointers are 64-bit quantities: in every kernel, an arithmetic i
       carry when a buffer crosses a 4 GiB boundary.
 R01.7 block loops keep their accumulators: in no kernel is a state location re-loaded in every loop iteration, left
       unwritten inside the loop and written back from a loop-computed register only afterwards.
+R01.8 stream conservation in the context layer (lib/ctxrules.py on the IR skeleton, lib/irskel.py): for every SIMD
+      context layer and a grid of (flags, carried bytes, len) around every block and padding boundary, with the
+      manager modelled as handing the submitted job back at once, the jobs submitted continue the stream exactly
+      where the previous one ended; the carried block is submitted as data only when it holds a whole block in
+      stream order; without LAST the tail (< block) is carried and partial_block_buffer_length says so; with LAST
+      the padding job covers the residue with the 1 or 2 blocks the residue and the length field need;
+      total_length is the stream length.
 R01.3 every context-layer unit (one per CPU family and algorithm) carries the algorithm's standard initial hash
       value, complete: SHA-1 / SHA-256 / SHA-512 (FIPS 180-4 5.3), MD5 (RFC 1321 3.3), SM3 (GB/T 32905 4.1).
 R01.4 every unit that implements an algorithm's round function carries the complete standard round-constant set
@@ -302,6 +309,11 @@ def run(chk):
     # R01.2
     mods = ir.load_modules([u for u in units if u["kind"] == "c" and c20.CTX_UNIT.match(u["src"])])
     c20.ir_rules(_Proxy(chk), mods)
+    # R01.8
+    import ctxrules
+    nfun8, ncase8 = ctxrules.rule(chk, "R01.8", mods)
+    chk.floor("context layers replayed for stream conservation", nfun8, 22)
+    chk.floor("(flags, carried, len) cases followed on the IR skeleton", ncase8, 2000)
     # R01.3 / R01.4
     nunits, nctx = constant_rules(chk, lib, DIRS, "R01.3", "R01.4", UNIT_FLOOR, CTX_FLOOR)
     chk.trusted += ["LLVM 14 MC decoding", "the definitions in lib/stdconst.py (self-checked against published first/last constants on import)"]
